@@ -209,7 +209,23 @@ func (c *Chain) submitDeposits(b *builder) {
 		k := c.nextKey
 		c.nextKey++
 		var d common.DepositData
-		switch rng.Intn(3) {
+		switch rng.Intn(5) {
+		case 3: // the "public key" is not a curve point at all (processed, ignored; the key index stays unused)
+			d = c.MakeDeposit(k, creds(k), spec.MAX_EFFECTIVE_BALANCE, k)
+			for j := 1; j < len(d.Pubkey); j++ {
+				d.Pubkey[j] = byte(rng.Intn(256))
+			}
+			d.Pubkey[0] = 0x80 | byte(rng.Intn(0x20))
+			if _, err := d.Pubkey.Pubkey(); err == nil {
+				d.Pubkey[47] ^= 1
+			}
+			c.submitDeposit(d, depBadPoP, -1)
+			continue
+		case 4: // identity public key with the identity signature
+			d = common.DepositData{WithdrawalCredentials: creds(k), Amount: spec.MAX_EFFECTIVE_BALANCE, Signature: InfinitySignature()}
+			d.Pubkey[0] = 0xc0
+			c.submitDeposit(d, depBadPoP, -1)
+			continue
 		case 0: // signed by somebody else
 			d = c.MakeDeposit(k, creds(k), spec.MAX_EFFECTIVE_BALANCE, k+1)
 		case 1: // signature over another amount
@@ -399,6 +415,9 @@ func (b *builder) proposerSlashings(body BodyRef) error {
 				back = b.slot
 			}
 			h1 = common.BeaconBlockHeader{Slot: b.slot - back, ProposerIndex: v, ParentRoot: c.rndRoot(), StateRoot: c.rndRoot(), BodyRoot: c.rndRoot()}
+			if c.Rng.Intn(6) == 0 { // nothing forbids slashing for a double proposal that lies in the future
+				h1.Slot, det = b.slot+common.Slot(1+c.Rng.Intn(int(3*c.Spec.SLOTS_PER_EPOCH))), "future"
+			}
 		}
 		h2 := h1
 		switch c.Rng.Intn(3) {
@@ -639,10 +658,10 @@ func (b *builder) dutiesOf(a common.Slot) ([]*duty, error) {
 func (b *builder) attestations(body BodyRef) error {
 	c, spec, rng := b.c, b.c.Spec, b.c.Rng
 	limit := int(spec.MAX_ATTESTATIONS)
-	if m := b.mix.MaxAttestations; m >= 0 && m < limit {
+	if m := b.mix.MaxAttestations; m > 0 && m < limit {
 		limit = m
 	}
-	if b.slot == 0 || limit == 0 {
+	if b.slot == 0 || limit == 0 || b.mix.NoAttestations {
 		return nil
 	}
 	// inclusion window
